@@ -108,6 +108,9 @@ type Conn struct {
 	// state then produce identical bytes (needed for state merging); otherwise a per-connection counter is used.
 	Det bool
 
+	// Busy, if set, is SQLite's busy handler: called when a lock request fails; returning true retries the request.
+	Busy func() bool
+
 	// Acked is set once a commit has returned success to the application (journal finalised / WAL write lock released after a commit).
 	Acked bool
 
@@ -202,12 +205,24 @@ func (c *Conn) Close() {
 
 // ---- rollback-mode locking (unix VFS) ----
 
+// retry runs a lock attempt under the busy handler.
+func (c *Conn) retry(f func() error) error {
+	for {
+		err := f()
+		if err == nil || c.Busy == nil || !c.Busy() {
+			return err
+		}
+	}
+}
+
 func (c *Conn) lockShared() error {
 	if c.eLock >= 1 {
 		return nil
 	}
-	c.step("lock PENDING r")
-	if err := c.db.Lock(PendingByte, PendingByte, false); err != nil {
+	if err := c.retry(func() error {
+		c.step("lock PENDING r")
+		return c.db.Lock(PendingByte, PendingByte, false)
+	}); err != nil {
 		return err
 	}
 	c.step("lock SHARED r")
@@ -222,8 +237,10 @@ func (c *Conn) lockShared() error {
 }
 
 func (c *Conn) lockReserved() error {
-	c.step("lock RESERVED w")
-	if err := c.db.Lock(ReservedByte, ReservedByte, true); err != nil {
+	if err := c.retry(func() error {
+		c.step("lock RESERVED w")
+		return c.db.Lock(ReservedByte, ReservedByte, true)
+	}); err != nil {
 		return err
 	}
 	c.eLock = 2
@@ -235,14 +252,18 @@ func (c *Conn) lockExclusive() error {
 		return nil
 	}
 	if c.eLock < 3 {
-		c.step("lock PENDING w")
-		if err := c.db.Lock(PendingByte, PendingByte, true); err != nil {
+		if err := c.retry(func() error {
+			c.step("lock PENDING w")
+			return c.db.Lock(PendingByte, PendingByte, true)
+		}); err != nil {
 			return err
 		}
 		c.eLock = 3
 	}
-	c.step("lock SHARED w")
-	if err := c.db.Lock(SharedFirst, SharedFirst+SharedSize-1, true); err != nil {
+	if err := c.retry(func() error {
+		c.step("lock SHARED w")
+		return c.db.Lock(SharedFirst, SharedFirst+SharedSize-1, true)
+	}); err != nil {
 		return err
 	}
 	c.eLock = 4
